@@ -713,9 +713,16 @@ smtp_bdat(void)
 				 * The last byte in the buffer was never used before so this can't cause
 				 * an overflow. */
 				pos[rlen++] = '\r';
+				lastcr = 0;
 			}
 			WRITE(pos, rlen);
 		}
+	}
+
+	/* The final chunk carried no data, so a CR that ended the data before it is still pending. */
+	if ((*more != '\0') && lastcr && !bdaterr) {
+		lastcr = 0;
+		WRITEL("\r");
 	}
 
 	if ((msgsize > maxbytes) && !bdaterr) {
